@@ -41,6 +41,19 @@ CLAIMS = {
              'after every call of generated histories; a DFS on libadm\'s own snapshots is the oracle. Parsed files and '
              'termination of Document::add / route tracing are covered by C07/C18 work, not yet by theorems here.',
         design='8 C06'),
+    'C12': dict(
+        technique='Rocq proof of the stream/track synchronisation invariant over the heap model (partial for failing link '
+                  'calls) + extracted-model/libadm differential run with the Sync oracle after every call',
+        text='Theorems (Props/Properties_C12.v): from any synchronised state every API call of the model keeps "track '
+             'format T references S iff S lists T, once" - for every outcome of every call, except that for '
+             'AudioStreamFormat::addReference(track) and AudioTrackFormat::setReference(stream) it is proved for the '
+             'successful outcome only (theorems named _partial; the full statement and what is missing are written in the '
+             'file). clearReferences, removeReference (both sides) and Document::remove are proved for every outcome. '
+             'The missing half - no exception between the two writes of a linking call - is explored: libadm and the '
+             'extracted model are run on generated histories over several stream and track formats and the Sync oracle is '
+             'applied to libadm after every call, including calls that throw. Parsed files and copies are covered by the '
+             'C09/C01 work.',
+        design='8 C12'),
 }
 
 NOT_YET = {}
